@@ -338,6 +338,16 @@ PARTS = {
 }
 
 
+def shard_codepoints(ctx, arg):
+    """Every code point in [lo, hi) alone, and before / after / between ASCII letters: the character classes of
+    the name rules are ASCII-only, whatever Unicode case folding or category the code point has."""
+    lo, hi = arg
+    for cp in range(lo, hi):
+        c = chr(cp)
+        for s in (c, "a" + c, c + "a", "k-" + c + "1"):
+            check_name(ctx, s, True)
+
+
 def shard_options(ctx, arg):
     lo, hi = arg
     for w in range(lo, hi):
@@ -362,7 +372,11 @@ def run(ctx):
     for n in range(0, 5):
         for tup in itertools.product(NAME_ALPHABET, repeat=n):
             check_name(ctx, "".join(tup), True)
-    ctx.exhaustive("names", True, "all strings of length <= 4 over %r" % (NAME_ALPHABET,))
+    top = 0x10000 if quick else 0x110000
+    step = top // 16
+    ctx.parallel("shard_codepoints", [(i * step, (i + 1) * step) for i in range(16)])
+    ctx.exhaustive("names", True, "all strings of length <= 4 over %r; every code point below U+%X alone and "
+                   "next to ASCII letters" % (NAME_ALPHABET, top))
     for kind in ("option", "argument"):
         for typ in "sbif":
             for nullable in (False, True):
